@@ -3,6 +3,7 @@ import Bng.Drv.Bitmap
 import Bng.Drv.Epoch
 import Bng.Model.Dist
 import Bng.Model.DistSpec
+import Bng.Model.LeaseSpec
 /-
   bngdrv component `dist`: replays traces of the real allocator.DistributedAllocator (over the harness
   store) on the model and runs the C12 monitor on the implementation's observations.  Sequences that
@@ -34,6 +35,16 @@ structure St where
   tickSince : List Nat := []
   /-- the implementation's current epoch as its answers reveal it (2 after construction/restart) -/
   implEpoch : Nat := 2
+  /-- lease mode, per subscriber: a stale delete notification released the lease it had just re-acquired
+      (finding KF-stale-delete-echo), until its record is rewritten -/
+  staleEcho : List Nat := []
+  /-- Start refused (its load Query failed): the node is not serving -/
+  down : Bool := false
+  /-- the pool monitor over TIME (C01: who was told which address, leases with their grace period), fed with the
+      node's Allocate/Renew/Release/Get answers and epoch ticks -/
+  lmon : LeaseSpec.Mon := {}
+  lgeo : PoolSpec.Geo := { lo := 0, step := 1, units := 0, totalReported := 0 }
+  lease : Bool := false
   /-- round trip of the bitmap allocator: a SetAllocation moved a subscriber -/
   moved : Bool := false
   /-- … and the two copies have since handed DIFFERENT units to a new subscriber (finding D40): from here
@@ -279,7 +290,8 @@ def leaseAuditClause (st : St) (s : Lease.State) (rows : List DistSpec.Row) : Cl
         let modelSame := match AMap.lookup s.store k, Lease.get s k with
           | some r, .none => r.epoch == e
           | _, _ => false
-        if v == "store-agree" && st.tickSince.contains k && modelSame then "KF-lease-store-epoch" else "none"
+        if st.staleEcho.contains k && modelSame then "KF-stale-delete-echo"
+        else if v == "store-agree" && st.tickSince.contains k && modelSame then "KF-lease-store-epoch" else "none"
       | some (_, none, some _) =>
         let modelSame := match AMap.lookup s.store k, Lease.get s k with
           | none, .okAddr _ _ => true
@@ -300,7 +312,7 @@ def stepLease (st : St) (s : Lease.State) (toks : List String) (impl : String) :
   -- bookkeeping of k's record after an allocate/renew answer
   let wrote := fun (st : St) (k : Nat) =>
     if implOk then { st with drift := AMap.erase st.drift k, staleRec := st.staleRec.filter (· ≠ k),
-                             tickSince := st.tickSince.filter (· ≠ k) }
+                             tickSince := st.tickSince.filter (· ≠ k), staleEcho := st.staleEcho.filter (· ≠ k) }
     else if implErr then { st with staleRec := k :: st.staleRec }
     else st
   let allocOp := fun (k f : String) => match parseTagged 's' k, bit f 0 with
@@ -358,9 +370,10 @@ def stepLease (st : St) (s : Lease.State) (toks : List String) (impl : String) :
     | _, _ => (st, { modelObs := "badop" })
   | ["tickrace", seed, k] => match seed.toNat?, parseTagged 's' k with
     | some seed, some k =>
-      -- epochLoop holds da.mu for the whole iteration, so the racing Allocate runs after the tick
-      let (s1, o1) := Lease.tick s (orderOf s.store seed) false
-      let (s2, o2) := Lease.alloc s1 k false
+      -- epochLoop holds da.mu for the whole iteration, so the racing Allocate runs after the tick — and before
+      -- the store's (asynchronous) delete notifications of that tick are delivered
+      let (s2, o1, o2) := Lease.tickThenAllocThenEcho s (orderOf s.store seed) k
+      let deleted := (Lease.tickCore s (orderOf s.store seed) false).2
       let e := match splitTokens impl with
         | e :: _ => (e.toNat?).getD (st.implEpoch + 1)
         | [] => st.implEpoch + 1
@@ -370,7 +383,9 @@ def stepLease (st : St) (s : Lease.State) (toks : List String) (impl : String) :
         | _ => false
       let st1 := { st with tickSince := all, implEpoch := e }
       let st2 := if allocOk then { st1 with drift := AMap.erase st1.drift k, staleRec := st1.staleRec.filter (· ≠ k),
-                                            tickSince := st1.tickSince.filter (· ≠ k) } else st1
+                                            tickSince := st1.tickSince.filter (· ≠ k),
+                                            staleEcho := if deleted.contains k then k :: st1.staleEcho else st1.staleEcho.filter (· ≠ k) }
+                 else st1
       result st2 (.lease s2) s!"{showObs o1} {showObs o2}" (if allocOk then .mutated k (some e) else .attempt) plain
     | _, _ => (st, { modelObs := "badop" })
   | ["remoteput", k, a, e] => match parseTagged 's' k, parseAddrLen a, e.toNat? with
@@ -523,6 +538,109 @@ def stepRtEpoch (st : St) (a : Epoch.State) (b : Option Epoch.State) (toks : Lis
            viols := vs.map fun (n, d, _) => (n, "none", d) })
     | none => (st, { modelObs := "badop" })
 
+/-! ### the pool monitor over time (uniqueness across epochs, restarts and replication) -/
+
+def lmonForget (m : LeaseSpec.Mon) (k : Nat) : LeaseSpec.Mon :=
+  { m with mon := AMap.erase m.mon k, renewed := AMap.erase m.renewed k, ghost := AMap.erase m.ghost k }
+
+/-- Which of the monitor's verdicts belong to this component's reading, and under which finding's clause:
+    * KF-lease-store-epoch only for a subscriber whose record's epoch stamp is NOT the code's own last write
+      (a write that failed, or a record stamped by another node) — a lease the code itself refreshed in the
+      store is never excused;
+    * KF-dist-remote-collision only for subscribers / prefixes the C12 monitor has marked as collided. -/
+def lmonClause (st : St) (ev : LeaseSpec.Ev) (v : String) : String :=
+  let collided := fun (k : Nat) => st.mon.conflicted.contains k
+  match v, ev with
+  | "unique", .got k a =>
+    match PoolSpec.holderOf (AMap.erase st.lmon.mon k) a with
+    | some k' =>
+      if st.staleEcho.contains k' then "KF-stale-delete-echo"
+      else if st.staleRec.contains k' then "KF-lease-store-epoch"
+      else if collided k' || collided k || st.mon.badPfx.any (fun p => p.1 == a) then "KF-dist-remote-collision"
+      else "none"
+    | none => "none"
+  | "idempotent", .got k _ =>
+    if st.staleRec.contains k then "KF-lease-store-epoch"
+    else if collided k then "KF-dist-remote-collision" else "none"
+  | "reclaimed", .looked k _ =>
+    if st.staleEcho.contains k then "KF-stale-delete-echo"
+    else if st.staleRec.contains k then "KF-lease-store-epoch"
+    else if collided k then "KF-dist-remote-collision" else "none"
+  | "reclaimed", .renewRefused k =>
+    if st.staleEcho.contains k then "KF-stale-delete-echo"
+    else if st.staleRec.contains k then "KF-lease-store-epoch"
+    else if collided k then "KF-dist-remote-collision" else "none"
+  | _, _ => "none"
+
+def lmonStep (st : St) (toks : List String) (impl : String) : St × List (String × String × String) :=
+  let itoks := splitTokens impl
+  let feed := fun (ev : LeaseSpec.Ev) =>
+    let (m', vs) := LeaseSpec.check st.lgeo st.lmon ev
+    let keep := vs.filter fun (n, _) => n == "unique" || n == "idempotent" || n == "range" || n == "reclaimed"
+    ({ st with lmon := m' }, keep.map fun (n, d) => (n, lmonClause st ev n, d))
+  let held := fun (k : Nat) => (AMap.lookup st.lmon.mon k).isSome
+  match toks with
+  | [op, k, _] =>
+    if op == "alloc" || op == "allocmac" then
+      match parseTagged 's' k, itoks with
+      | some k, ["ok", a] => match parseAddrLen a with
+        | some (x, _) => feed (.got k x)
+        | none => (st, [])
+      -- a store error after the in-memory step: the lease was refreshed all the same
+      | some k, ["error"] => if held k then feed (.renewed k) else (st, [])
+      | _, _ => (st, [])
+    else if op == "release" then
+      match parseTagged 's' k, itoks with
+      | some k, ["ok"] => feed (.released k)
+      | _, _ => (st, [])
+    else if op == "renew" && st.lease then
+      match parseTagged 's' k, itoks with
+      | some k, ["ok"] => if held k then feed (.renewed k) else (st, [])
+      | some k, ["error"] => if held k then feed (.renewed k) else (st, [])
+      | some k, ["notfound"] => feed (.renewRefused k)
+      | _, _ => (st, [])
+    else if op == "tick" then feed .advanced
+    else if op == "tickrace" then
+      -- tickrace <seed> sK => <epoch> <answer of Allocate>
+      let (st1, v1) := feed .advanced
+      match parseTagged 's' (toks.getD 2 ""), itoks with
+      | some k, [_, "ok", a] => match parseAddrLen a with
+        | some (x, _) =>
+          let (m', vs) := LeaseSpec.check st1.lgeo st1.lmon (.got k x)
+          let keep := vs.filter fun (n, _) => n == "unique" || n == "idempotent" || n == "range"
+          ({ st1 with lmon := m' }, v1 ++ keep.map fun (n, d) => (n, lmonClause st1 (.got k x) n, d))
+        | none => (st1, v1)
+      | _, _ => (st1, v1)
+    else if op == "restart" then
+      -- a restart whose load Query fails: the node must refuse; whatever it answers afterwards is judged
+      -- against what its subscribers held before
+      (st, [])
+    else (st, [])
+  | ["get", k] =>
+    match parseTagged 's' k with
+    | some k =>
+      if impl == "none" then feed (.looked k none)
+      else match parseAddrLen impl with
+        -- a holding the monitor has no record of (after a restart or a replicated change): adopted, and checked
+        -- for uniqueness and range like a fresh grant
+        | some (x, _) => if held k then feed (.looked k (some x)) else feed (.got k x)
+        | none => (st, [])
+    | none => (st, [])
+  | ["restart", _] =>
+    -- lease mode re-allocates on reload (D38): what subscribers hold afterwards is learnt anew.
+    -- session mode restores the table, so the monitor keeps it — unless the store holds colliding records,
+    -- whose winner depends on the enumeration order (KF-dist-remote-collision).
+    if st.lease || !st.mon.conflicted.isEmpty || !st.mon.badPfx.isEmpty then
+      ({ st with lmon := { grace := st.lmon.grace } }, [])
+    else (st, [])
+  | ["remoteput", k, _, _] => match parseTagged 's' k with
+    | some k => ({ st with lmon := lmonForget st.lmon k }, [])
+    | none => (st, [])
+  | ["remotedel", k] => match parseTagged 's' k with
+    | some k => ({ st with lmon := lmonForget st.lmon k }, [])
+    | none => (st, [])
+  | _ => (st, [])
+
 def step (st : St) (toks : List String) (impl : String) : St × LineResult :=
   match toks with
   | ["new", mode, fam, base, ones, pl, grace, ns] =>
@@ -530,11 +648,13 @@ def step (st : St) (toks : List String) (impl : String) : St × LineResult :=
     | some fam, some base, some ones, some pl, some grace, some ns =>
       if mode == "session" then
         let c : Bitmap.Cfg := { famBits := fam, poolPrefix := ones, plen := pl, base := base }
-        if c.valid then ({ model := .session (Session.init c), nsubs := ns }, { modelObs := "ok" })
+        if c.valid then ({ model := .session (Session.init c), nsubs := ns, lgeo := Bitmap.geoOf c }, { modelObs := "ok" })
         else ({}, { modelObs := "invalid" })
       else if mode == "lease" then
         let c : Epoch.Cfg := { base := base, ones := ones, plen := pl, grace := if grace = 0 then 1 else grace }
-        if fam = 32 ∧ c.valid then ({ model := .lease (Lease.init c), nsubs := ns }, { modelObs := "ok" })
+        if fam = 32 ∧ c.valid then
+          ({ model := .lease (Lease.init c), nsubs := ns, lease := true, lmon := { grace := c.grace },
+             lgeo := { lo := base + 1, step := 1, units := c.total - 2, totalReported := c.total - 2 } }, { modelObs := "ok" })
         else ({}, { modelObs := "invalid" })
       else (st, { modelObs := "badop" })
     | _, _, _, _, _, _ => (st, { modelObs := "badop" })
@@ -561,10 +681,35 @@ def step (st : St) (toks : List String) (impl : String) : St × LineResult :=
   | _ =>
     match st.model with
     | .none => (st, { modelObs := "badop" })
-    | .session s => stepSession st s toks impl
-    | .lease s => stepLease st s toks impl
     | .rtBitmap a b => stepRtBitmap st a b toks impl
     | .rtEpoch a b => stepRtEpoch st a b toks impl
+    | m =>
+      -- restart <seed> 1: the Query of the load step fails, Start must refuse; the node is down until the next restart
+      let failedStart := match toks with
+        | ["restart", _, "1"] => true
+        | _ => false
+      let toks' := match toks with
+        | ["restart", seed, _] => ["restart", seed]
+        | t => t
+      let (st1, lv) := if failedStart then (st, []) else lmonStep st toks' impl
+      if failedStart then
+        let has := match m with
+          | .session s => !s.store.isEmpty
+          | .lease s => !s.store.isEmpty
+          | _ => false
+        let (mon', vs) := DistSpec.check st.mon (.startOutcome true has (impl == "ok"))
+        ({ st with down := true, mon := mon' },
+         { modelObs := "error", viols := vs.map fun (n, d, _) => (n, "none", d) })
+      else if st.down && toks'.head? != some "restart" then
+        -- a node that refused to start serves nothing; if the implementation answers all the same, its answers are
+        -- still judged by the pool monitor
+        (st1, { modelObs := "down", viols := lv })
+      else
+        let (st2, r) := match m with
+          | .session s => stepSession { st1 with down := false } s toks' impl
+          | .lease s => stepLease { st1 with down := false } s toks' impl
+          | _ => (st1, { modelObs := "badop" })
+        (st2, { r with viols := r.viols ++ lv })
 
 def component : Component := { σ := St, init := {}, step := step }
 
